@@ -131,6 +131,12 @@ class C18(Prop):
         conn_sfx = ":after-conn" if "example" not in case and any(
             s["k"] == "conn" for s in case["stmts"]) else ""
         cmp_views(res, tag + ":roundtrip", before, after, models=False, suffix=conn_sfx)
+        # the top model's ports (direction, width) survive too (black-box models may legitimately be
+        # re-declared with directions the source never gave, so only the top is compared)
+        tb = before["models"].get(before["top"], {}).get("ports")
+        ta = after["models"].get(after["top"], {}).get("ports")
+        if tb != ta and not res.violations:
+            res.violate(tag + ":roundtrip:top-ports-differ", "; ".join(model.diff(tb, ta)))
         if res.violations:
             sig, det = res.violations[0]
             res.violations[0] = (sig, det + "\n--- written:\n" + text2[:1500])
